@@ -6,7 +6,7 @@ def extend(table):
     for p in ("C01", "C02", "C03", "C04", "C05", "C06", "C07", "C08", "C09", "C11", "C12", "C15", "C16", "C17"):
         table[p] = [fsm.prop_generic]
     table["C10"] = table["C10"] + [fsm.prop_generic]
-    table["C14"] = [wide.run]
+    table["C14"] = [wide.run, fsm.prop_generic]
     table["C12"] = [fsm.prop_generic, wide.run]
     table["C13"] = table["C13"] + [wide.run]
     for p in ("C08", "C09", "C10"):
